@@ -238,18 +238,14 @@ where
             let r = catch_unwind(AssertUnwindSafe(f));
             if let Err(p) = r {
                 let me = rt::current_task();
-                let regular = rt::try_with(|st| {
-                    if let Some(i) = st.pending_panic.iter().position(|t| *t == me) {
-                        st.pending_panic.swap_remove(i);
-                        true
-                    } else {
-                        false
-                    }
-                })
-                .unwrap_or(false);
-                if !regular {
+                if p.is::<crate::sched::StopRun>() {
                     std::panic::resume_unwind(p);
                 }
+                rt::try_with(|st| {
+                    if let Some(i) = st.pending_panic.iter().position(|t| *t == me) {
+                        st.pending_panic.swap_remove(i);
+                    }
+                });
                 let msg = rt::with(|st| {
                     st.panics
                         .iter()
